@@ -8,6 +8,10 @@ open Tw.Packet Tw.Packet7 Tw.Drv
 
 def tbl : Tw.Huffman.Table := Tw.Gen.Huffman.table
 
+/-- the Huffman decoder the reader is evaluated with: `decompressFast`, equal to the model's `decompress`
+(`Tw.Huffman.decompressFast_eq`; `Tw.Packet7.readWith_fast` : `readWith fastDec = read tbl`) -/
+def fastDec : List UInt8 → Nat → Tw.Huffman.DecResult := Tw.Huffman.decompressFast tbl
+
 def wsStr (ws : List Warning) : String := listStr (ws.map Warning.name)
 
 def tokStr (t : Token) : String := String.join (t.toList.map hexByte)
@@ -233,7 +237,7 @@ partial def hashRead (cap : Nat) (pre : List UInt8) (lo hi nrest : Nat)
     for k in [0:total] do
       let mid := (List.range nrest).map fun j => UInt8.ofNat (k / 256 ^ (nrest - 1 - j))
       let bs := pre ++ [UInt8.ofNat x] ++ mid ++ suf
-      h := hashLine h (readLine (read tbl bs (some cap)))
+      h := hashLine h (readLine (readWith fastDec bs (some cap)))
   return h
 
 def parseVital (s : String) : Option (Option (Nat × Bool)) :=
@@ -302,11 +306,11 @@ def handle (toks : List String) : String :=
     | _, _, _ => "bad-op"
   | ["read", cap, h] =>
     match parseNat cap, parseHex h with
-    | some cap, some bs => readLine (read tbl bs (some cap))
+    | some cap, some bs => readLine (readWith fastDec bs (some cap))
     | _, _ => "bad-op"
   | ["readp", h] =>
     match parseHex h with
-    | some bs => readLine (read tbl bs none)
+    | some bs => readLine (readWith fastDec bs none)
     | _ => "bad-op"
   | ["hash_read", cap, pre, lo, hi, nrest, suf] =>
     match parseNat cap, parseHex pre, parseNat lo, parseNat hi, parseNat nrest, parseHex suf with
@@ -317,7 +321,7 @@ def handle (toks : List String) : String :=
   | ["din", cap, h] =>
     match parseNat cap, parseHex h with
     | some cap, some bs =>
-      match decompressIfNeeded tbl bs cap with
+      match decompressIfNeededWith fastDec bs cap with
       | .ok false _ => "ok 0"
       | .ok true s => s!"ok 1 {toHex s}"
       | .err => "err"
